@@ -403,6 +403,64 @@ fn boundary_width(input: &str, cfg: &Cfg, r: &mut Rng) -> u32 {
     (l + d).max(1) as u32
 }
 
+/// `condinline` family: a statement whose beginning is switched by an inline conditional directive, so that the two
+/// conditional-directive passes lay out logical lines that share most of their tokens but start at different columns;
+/// the wrap column lies around the two widths, so one pass breaks where the other continues.
+fn cond_inline_case(r: &mut Rng) -> (String, Cfg) {
+    let mut cfg = Cfg::random(r);
+    if cfg.tab_width == 0 || cfg.tab_width > 8 {
+        cfg.tab_width = 2;
+    }
+    if cfg.cont > 8 {
+        cfg.cont = 2;
+    }
+    let word = |r: &mut Rng, c: char| -> String { std::iter::repeat(c).take(r.range(3, 60)).collect() };
+    let call = match r.below(4) {
+        0 => format!("Call({}, {})", word(r, 'a'), word(r, 'b')),
+        1 => format!("Obj.Method({} + {}, {})", word(r, 'a'), word(r, 'b'), word(r, 'c')),
+        2 => format!("{} + {} * {}", word(r, 'a'), word(r, 'b'), word(r, 'c')),
+        _ => format!("Call({}).Next({}, {})", word(r, 'a'), word(r, 'b'), word(r, 'c')),
+    };
+    let (p1, p2) = *r.pick(&[
+        ("Target := ", ""),
+        ("Result := ", "Other := "),
+        ("if Condition then ", ""),
+        ("", "TargetVariable := "),
+        ("X := Y + ", "X := "),
+    ]);
+    let depth = r.range(1, 3);
+    let mut s = String::from("procedure P;\nbegin\n");
+    for d in 1..depth {
+        s.push_str(&"  ".repeat(d));
+        s.push_str("begin\n");
+    }
+    let ind = "  ".repeat(depth);
+    let stmt = if p2.is_empty() {
+        format!("{ind}{{$IFDEF A}} {p1}{{$ENDIF}} {call};\n")
+    } else {
+        format!("{ind}{{$IFDEF A}} {p1}{{$ELSE}} {p2}{{$ENDIF}} {call};\n")
+    };
+    if r.chance(1, 3) {
+        s.push_str(&format!("{ind}Before := 1;\n"));
+    }
+    s.push_str(&stmt);
+    if r.chance(1, 3) {
+        s.push_str(&format!("{ind}After := 2;\n"));
+    }
+    for d in (1..depth).rev() {
+        s.push_str(&"  ".repeat(d));
+        s.push_str("end;\n");
+    }
+    s.push_str("end;\n");
+    // widths of the two variants of the statement line under this configuration
+    let unit = if cfg.use_tabs { 1 } else { cfg.tab_width as usize };
+    let base = unit * depth + call.len() + 1;
+    let (l1, l2) = (base + p1.len(), base + p2.len());
+    let (lo, hi) = (l1.min(l2), l1.max(l2));
+    cfg.wrap_column = (lo as i64 - 2 + r.below(hi - lo + 5) as i64).max(1) as u32;
+    (s, cfg)
+}
+
 /// `mlscancel` family: a multi-line string followed by a tail on the closing-quote line, laid out so that the
 /// re-indentation keeps the literal's total byte length while moving the closing quotes (an emptied blank-only line or a
 /// dropped CR cancels the added indentation), with a wrap column between the old and the new width of that line.
@@ -787,6 +845,14 @@ fn cmd_emit(a: &Args) {
     }
     let per = if only.is_empty() { (count + families.len() - 1) / families.len().max(1) } else { 0 };
     for fam in &families {
+        if fam == "condinline" {
+            let mut r = rng.fork();
+            for _ in 0..per {
+                let (input, cfg) = cond_inline_case(&mut r);
+                cases.push(Case { stream: stream.clone(), family: fam.clone(), input, cfg, cursors: vec![], oracles: oracle_list.clone(), well_formed: true, w2: 200, input2: None, marks: vec![], texts: vec![] });
+            }
+            continue;
+        }
         if fam == "mlscancel" {
             let mut r = rng.fork();
             for _ in 0..per {
